@@ -6,15 +6,29 @@ VERIF = os.path.dirname(HERE)
 
 TECH = "bounded symbolic execution of the real Rust code with Kani 0.68 / CBMC 6.11 (SAT, CaDiCaL); counterexamples replayed natively"
 
+B = "Same trusted base and bounds as C01 (see evidence.coverage.bounds/outside_claim)."
 CLAIMED = {
- "C01": ("§4 C01", "For every listed monomorphisation (scalars at full width, nestings to depth 3, derive(Lattice) structs, CapSet/CapMap-backed sets and maps, tombstone lattices) the solver shows merge idempotent/commutative/associative for ALL values within the stated shape bounds; a bounded claim, not a proof.",
-         "Trusted: Kani/CBMC, harness models and CapSet/CapMap (validated by cap_* harnesses). Hash-backed aliases are outside the claim."),
- "C02": ("§4 C02", "Solver-checked for all values within bounds: merge's flag == (value strictly grew), against ==, partial_cmp and an independent model.",
-         "Same trusted base and bounds as C01."),
- "C03": ("§4 C03", "Solver-checked for all values within bounds: partial_cmp/eq equal the model order and the merge-derived order, partial-order axioms on symbolic triples, is_bot/is_top exact, Default is bottom, including cross-representation comparisons.",
-         "Same trusted base and bounds as C01; array-backed collections assumed duplicate-free."),
- "C04": ("§4 C04", "Solver-checked for all values within bounds: merge result equals the documented abstract join (independent model), heterogeneous merges and LatticeFrom conversions agree, union-find same() equals the equivalence closure after every step.",
-         "Same trusted base and bounds as C01; union-find domain of 4 items."),
+ "C01": ("§4 C01", "For every listed monomorphisation/shape (scalars at full width, nestings to depth 3, derive(Lattice) structs, CapSet/BTreeSet sets, BTreeMap/CapMap maps, vectors, union-find, tombstone lattices) the solver shows merge idempotent/commutative/associative for ALL contents within the stated shape bounds; a bounded claim, not a proof.",
+         "Trusted: Kani/CBMC, harness models and CapSet/CapMap. Hash-backed aliases are outside the claim."),
+ "C02": ("§4 C02", "Solver-checked for all contents within bounds: merge's flag == (value strictly grew), against ==, partial_cmp and an independent model; heterogeneous merges included.", B),
+ "C03": ("§4 C03", "Solver-checked for all contents within bounds: partial_cmp/eq equal the model order and the merge-derived order, partial-order axioms on symbolic triples, is_bot/is_top exact, Default is bottom, including cross-representation comparisons.", B + " Array-backed collections assumed duplicate-free."),
+ "C04": ("§4 C04", "Solver-checked for all contents within bounds: merge result equals the documented abstract join (independent model), heterogeneous merges and LatticeFrom conversions agree, union-find same() equals the equivalence closure after every step of a symbolic history, arbitrary (malformed) parent maps included.", B + " Union-find domain of 4 items."),
+ "C05": ("§4 C05", "Inductive step decided by the solver from an arbitrary invariant-satisfying state: tombstones' = union, live' = (union of inserts) minus tombstones', never both, never resurrected, for every item (symbolic probe) — covers histories of any length/order; plus two-order witnesses. Backend-independent generic merge logic only.",
+         "Trusted: harness TombstoneSet impl on CapSet. The hash/roaring/FST backend-equivalence clause is outside the claim (not encodable)."),
+ "C06": ("§4 C06", "Solver-checked per value shape: atoms non-bottom, none exactly for bottom, merging atoms into Default reforms the value.", B),
+ "C07": ("§4 C07", "Solver-checked per shape: cartesian-product, keyed and pair bimorphisms distribute over merge in each argument and compute the relational product. GHT bimorphisms are outside the claim.", B),
+ "C09": ("§4 C09", "Every law checker agrees with a textbook reference for ALL operation tables over a 3-element carrier (symbolic tables), composites and get_single_function_properties included; shipped semirings satisfy the semiring laws at symbolic triples (full u32 / all doubles in [0,1]).",
+         "Trusted: reference law statements in the harness. Carriers > 3 and exact f64 multiplication associativity are outside the claim."),
+ "C11": ("§4 C11", "Each pull combinator equals its iterator adapter for EVERY placement of Pending/Ended and every item value within the script bound (symbolic scripts); fused pulls stay ended; size hints bracket.",
+         "Trusted: scripted source + caller loop in the harness crate. Script length 3-6."),
+ "C12": ("§4 C12", "Each push combinator delivers the reference sequences for EVERY pattern of downstream Pending answers within the bound and honours the protocol (asserted by the scripted downstream).",
+         "Trusted: scripted downstream + caller loop. 2-3 items, <= 3 pendings per poll kind. Keyed/Vec-backed/FuturesUnordered combinators outside the claim."),
+ "C13": ("§4 C13", "PARTIAL: only SymmetricHashJoin::pull's orchestration is decided (every pending placement, set and multiset semantics) with a harness-side HalfJoinState; the shipped FxHashMap states, NewTickJoinIter and the multi-tick clauses are not encodable.",
+         "Trusted: harness ArrState honours the HalfJoinState contract. A defect inside half_join_state/*.rs is invisible to this check."),
+ "C14": ("§4 C14", "Each sink adaptor delivers exactly once, in order, to the addressed sink for EVERY readiness/flush pattern within the bound; LazySink initialises at most once and loses nothing, for every placement of pendings in init/ready/flush.",
+         "Trusted: scripted sink + caller loop. demux_map(_lazy) (HashMap) outside the claim."),
+ "C15": ("§4 C15", "The real MergeSource/TaggedSource poll_next over scripted streams: per-sender order, exactly-once, tag, end exactly when all ended, cursor in range — for every per-poll ready/pending/ended pattern within the bound.",
+         "Trusted: scripted streams. 2 sources x 2 polls (quick)."),
 }
 
 NA = {}
